@@ -3721,13 +3721,20 @@ class FuncS(ValueFunc):
                     "Cannot format " + value + " as a number",
                     pos,
                 )
-            while len(value) < width:
+            try:
                 if leading:
-                    value = " " + value
+                    value = value.rjust(width)
                 elif zeroes:
-                    value = "0" + value
+                    value = value.rjust(width, "0")
                 else:
-                    value = value + " "
+                    value = value.ljust(width)
+            except (OverflowError, MemoryError):
+                raise CklRuntimeError(
+                    ValueString("ERROR"),
+                    "Invalid format specification in {"
+                    + s[idx1+1:idx2] + "}",
+                    pos,
+                )
             s = s[0:idx1] + value + s[idx2+1:]
             start = idx1 + len(value)
 
